@@ -57,6 +57,31 @@ def run(ctx):
             for (a, s) in cd.get(x, set()):
                 deps.add((a, s))
                 st.append(a)
+        # a decision carried by a value: `match NonceDisposition::of(nonce, acct) { Park(n) => park, .. }` - the park site depends
+        # on the discriminant of a local; a comparison edge counts as a dependency when the selected variant can be built past
+        # that edge and cannot be built past its sibling
+        from terms import variant_chains
+        for (a, s_) in list(deps):
+            t_ = fn.term(a)
+            if t_["k"] != "switch" or "l" not in t_["discr"]:
+                continue
+            dd = [d_ for d_ in fn.defs().get(t_["discr"]["l"], []) if d_[2] == "assign" and d_[3]["rv"]["k"] == "discr"]
+            if len(dd) != 1 or dd[0][3]["rv"]["place"].get("p"):
+                continue
+            D = dd[0][3]["rv"]["place"]["l"]
+            names = {v_["val"]: v_["name"] for v_ in dd[0][3]["rv"].get("variants", [])}
+            vals = [v for (v, tb) in t_.get("targets", []) if tb == s_]
+            if len(vals) != 1 or vals[0] not in names:
+                continue
+            V = names[vals[0]]
+            for (b, s2, r, k, rel, fm, line) in rows:
+                sib = [x for x in fn.succ(b) if x != s2]
+                if not sib:
+                    continue
+                here = {c_[0] for c_ in variant_chains(fn, s2, target_local=D, at=a)}
+                there = {c_[0] for c_ in variant_chains(fn, sib[0], target_local=D, at=a)}
+                if V in here and V not in there and "?" not in there:
+                    deps.add((b, s2))
         have = set()
         consts = set()
         for (b, s, r, k, rel, fm, line) in rows:
